@@ -767,3 +767,15 @@ mod tests {
         assert_eq!(pattern.graph, GraphTerm::Named(inner_graph));
     }
 }
+
+// ---- verif hooks C16 ----
+// Add-only wrappers compiled only with `--cfg kolibrie_verif`; no behaviour change.
+#[cfg(kolibrie_verif)]
+pub fn verif_unescape_sparql_iri(value: &str) -> String {
+    unescape_sparql_iri(value)
+}
+#[cfg(kolibrie_verif)]
+pub fn verif_literal_lexical_value(literal: &str) -> String {
+    literal_lexical_value(literal)
+}
+// ---- end verif hooks C16 ----
